@@ -1613,6 +1613,53 @@ variant('b-generator-failure-waits-for-the-queue', ['C07', 'C08'], SFG,
 variant('b-empty-stream-completes-at-subscribe', ['C10', 'C06'], 'rsocket/streams/empty_stream.py',
         "    def request(self, n: int):", "    def subscribe(self, subscriber):\n        super().subscribe(subscriber)\n        self._subscriber.on_complete()\n\n    def request(self, n: int):",
         ('C06.e', 'EmptyStream'))
+variant('b-tags-encoded-only-once', ['C18'], TG,
+        "        self.content = self._serialize_tags()\n", "        if self.content is None:\n            self.content = self._serialize_tags()\n",
+        ('C18.j', 'TaggingMetadata.serialize'))
+variant('b-generator-delivery-queue-bounded', ['C01'], SFG,
+        "self._queue = asyncio.Queue()", "self._queue = asyncio.Queue(256)", ('C01.j', '_queue'))
+variant('b-stop-all-streams-replaces-the-allocator', ['C13'], RB,
+        "        self._stream_control.stop_all_streams(error_code, data)\n",
+        "        self._stream_control.stop_all_streams(error_code, data)\n        self._stream_control = StreamControl(self._get_first_stream_id())\n",
+        ('C13.g', 'id allocator'))
+variant('b-sync-generator-credit-loop-without-suspension', ['C12'], SFG,
+        "        async for i in async_range(n):\n            next_value = next(self._iteration, _finished_iterator)",
+        "        for i in range(n):\n            next_value = next(self._iteration, _finished_iterator)",
+        ('C12.j', 'StreamFromGenerator._generate_next_n'))
+variant('b-keepalive-timestamp-in-utc', ['C15'], 'rsocket/rsocket_client.py',
+        "        self._last_server_keepalive = datetime.now()", "        self._last_server_keepalive = datetime.utcnow()",
+        ('C15.b', 'one clock'))
+variant('b-hold-queue-waits-for-room', ['C14'], RB,
+        "        self._request_queue.put_nowait(frame)\n\n    def send_priority_frame",
+        "        try:\n            self._request_queue.put_nowait(frame)\n        except asyncio.QueueFull:\n            asyncio.create_task(self._request_queue.put(frame))\n\n    def send_priority_frame",
+        ('C14.h', 'overflow reaches the caller'))
+variant('b-route-scan-stops-at-first-foreign-entry', ['C19'], 'rsocket/extensions/helpers.py',
+        "        if isinstance(item, RoutingMetadata):\n            return item.tags[0].decode()",
+        "        if not isinstance(item, RoutingMetadata):\n            break\n        return item.tags[0].decode()",
+        ('C19.c', 'require_route'))
+variant('b-stop-tasks-clears-before-awaiting', ['C17'], RB,
+        "        await cancel_if_task_exists(self._receiver_task)\n        self._receiver_task = None\n",
+        "        receiver_task, self._receiver_task = self._receiver_task, None\n        await cancel_if_task_exists(receiver_task)\n",
+        ('C17.g', '_stop_tasks'))
+variant('t-stop-tasks-through-local-alias', ['C11', 'C17'], RB,
+        "        await cancel_if_task_exists(self._receiver_task)\n        self._receiver_task = None\n",
+        "        receiver_task = self._receiver_task\n        await cancel_if_task_exists(receiver_task)\n        self._receiver_task = None\n",
+        kind='twin')
+variant('b-rx-cancel-disposes-before-completing-feedback', ['C20'], 'rsocket/rx_support/back_pressure_publisher.py',
+        "    def cancel(self):\n        self._feedback.on_completed()",
+        "    def cancel(self):\n        self._subscription.dispose()\n        self._feedback.on_completed()",
+        ('C20.i', 'the source is told to stop'))
+variant('b-setup-periods-masked-to-31-bits', ['C16', 'C02'], F,
+        "            self.keep_alive_milliseconds, self.max_lifetime_milliseconds)\n", "            self.keep_alive_milliseconds & MASK_31_BITS, self.max_lifetime_milliseconds & MASK_31_BITS)\n",
+        ('C02.a', 'SetupFrame'))
+variant('b-channel-dispose-notifies-before-cancelling', ['C11'], H + 'request_cahnnel_common.py',
+        "    def dispose(self):\n        if self.subscriber is not None and self.subscriber.subscription is not None:",
+        "    def dispose(self):\n        if self.remote_subscriber is not None and not self._received_complete:\n            self._received_complete = True\n            self.remote_subscriber.on_error(RuntimeError('Connection closed'))\n        if self.subscriber is not None and self.subscriber.subscription is not None:",
+        ('C11.c', 'the producer is cancelled before any call-out that can fail'))
+variant('t-channel-dispose-notifies-after-cancelling', ['C11'], H + 'request_cahnnel_common.py',
+        "            self.subscriber.subscription.cancel()\n\n    def _complete_remote_subscriber(self):",
+        "            self.subscriber.subscription.cancel()\n        logger().debug('disposed')\n\n    def _complete_remote_subscriber(self):",
+        kind='twin')
 variant('b-send-error-noop', ['C12'], RB,
         "        self.send_frame(exception_to_error_frame(stream_id, exception))",
         "        logger().error('error on stream %s: %s', stream_id, exception)", ('C12.b', 'RSocketBase.send_error'))
